@@ -169,6 +169,10 @@ def run(pid):
                 loc[r["src"]] = v[1]
         cov["ast_passes"] = {"programs": len(chosen), "verdicts": pst,
                              "localised_failures": [{"src": s, "first_pass_changing_the_meaning": p} for s, p in list(loc.items())[:20]]}
+        # the integer operators as a refinement model (spec/BitBlast.tla): model-checked against arithmetic, then the
+        # real translate_expression compared with it on the same cases
+        from . import bitblast
+        cov["integer_operators"] = bitblast.run(sc, t == "quick")
         for case, clause, detail in rep.violations:
             if isinstance(case, dict) and case.get("src") in loc:
                 case["first_ast_pass_changing_the_meaning"] = loc[case["src"]]
